@@ -41,6 +41,7 @@ def run(repo, chk):
     rule_b(chk, t)
     rule_e(repo, chk)
     rule_f(repo, chk)
+    rule_g_h(repo, chk)
 
 
 def rule_f(repo, chk):
@@ -382,3 +383,31 @@ def rule_e(repo, chk):
     ys = [n for n in walk_no_defs(w.node) if isinstance(n, ast.Yield) and n.value is not None and 'CallValue(' in src(n.value)]
     ok = bool(ys) and all(src(y.value) == 'CallValue(state.event.value)' for y in ys)
     chk.ob('e', w.ref, 'waitEvent finally yields CallValue of the awaited event\'s value', ok, loc(w, w.node), discr='wait-callvalue')
+
+
+def rule_g_h(repo, chk):
+    from .common import dispatcher_loop
+    chk.rule('C06.g', 'the temporary handlers of a wait take effect and disappear at once: addHandler/removeHandler invalidate the dispatcher memo on '
+                      'every path (decided for C01.a)')
+    n = chk.adopt('g', 'C01', repo, lambda o: o.rule == 'C01.a' and o.construct.split('::')[-1] in ('Manager.addHandler', 'Manager.removeHandler'))
+    need(n >= 2, f'C06.g: only {n} invalidation obligations for addHandler/removeHandler found')
+    chk.rule('C06.h', 'a task registered by a generate_events handler (the countdown registering the TimeoutError task) cancels the idle wait: after every '
+                      'handler of the loop the dispatcher tests the task list and reduces the budget')
+    d = repo.func(MANAGER, 'Manager._dispatcher')
+    chk.touch(d)
+    loop, v, sites, helper = dispatcher_loop(repo, d)
+    g = d.cfg()
+    inloop = [n for n in g.nodes if ('loop', loop.ast) in n.ctx]
+    tests = [n for n in inloop if n.kind == 'test' and src(n.ast) == 'self._tasks']
+    reduces = [n for n in inloop if n.kind == 'stmt' and any(True for _r, c in pat.method_calls(n.ast, 'reduce_time_left'))]
+    ok = bool(tests) and bool(reduces)
+    p = None
+    for s_ in sites:
+        p = p or Q.escapes(g, [s_], lambda n: n in tests, exits=('exit',), weak=True, extra_exit=lambda n: n is loop,
+                           avoid_edge=lambda e: e.kind == 'F' and e.src.kind == 'test' and 'generate_events' in src(e.src.ast) and 'isinstance' in src(e.src.ast))
+    for t_ in tests:
+        dst = [e.dst for e in t_.succ if e.kind == 'T']
+        ok = ok and bool(dst) and all(x in reduces for x in dst)
+    small = all(src(c.args[0]) in ('TIMEOUT', '0') for n in reduces for _r, c in pat.method_calls(n.ast, 'reduce_time_left') if c.args)
+    chk.ob('h', d.ref, 'after every handler of a generate_events dispatch the task list is tested and a pending task reduces the idle budget', ok and p is None and small,
+           loc(d, loop.ast), path=pat.path_lines(p) if p else None, discr='tasks-tested-after-each-handler')
